@@ -16,7 +16,15 @@ def pieces(b):
     mark = "$" if b == "pg" else "?"
     ph = ["$1", "$2", "$3"] if b == "pg" else ["?"]
     return (["a", " ", "=", "(", "1", "'q%sq'" % mark, '"i%s1"' % mark, "`%s`" % mark, "[%s]" % mark, "'it''s%s'" % mark,
-             "'a\\'%s'" % mark, mark + mark] + ph)
+             "'a\\'%s'" % mark, mark + mark, "]"] + ph)
+
+
+def extra_templates(b):
+    """nested subscripts and stray closing brackets: `[..]` is quoted text for the crate's tokenizer, closed by the
+    FIRST `]` (no doubling), so what follows `]]` is outside quoted text again (round 9)"""
+    ph = "$1" if b == "pg" else "?"
+    return ["arr[idx[1]] = %s" % ph, "a[b[c]]] %s" % ph, "[x]]%s" % ph, "m[1][2] = %s AND n[k[%s]] = 1" % (ph, ph),
+            "[]] %s []" % ph, "']]' = %s" % ph, "a]] %s" % ph, "[%s]]%s" % (ph, ph)]
 
 
 def spec_render(b, tmpl, lits, params_mode):
@@ -126,6 +134,8 @@ def gen_cases(ctx):
                 combos = rng.sample(combos, 1200)
             if not ctx.quick and L == 4:
                 combos = rng.sample(combos, 20000)
+            if L == 1:
+                combos = combos + [(t,) for t in extra_templates(b)]
             for combo in combos:
                 tmpl = "".join(combo)
                 k = rng.randrange(0, 4)
